@@ -75,14 +75,17 @@ DoReinit(st) == Out("ok", [st EXCEPT !.cert = [k \in CertKeys |-> IF st.cert[k] 
 \* records examined by the server-certificate gate
 Lookup(st, c) ==
   IF c.nid # NONE /\ st.cfg.nidl
-  THEN (IF c.nid = "own" THEN {x \in {c.k} : st.rec[x]} ELSE {x \in {c.ck} : st.rec[x]})
-  ELSE {x \in {c.k} : st.rec[x]}
+  THEN (IF c.nid = "own" THEN {x \in {c.k} \cap CertKeys : st.rec[x]}
+        ELSE IF c.nid = "other" THEN {x \in {c.ck} \cap CertKeys : st.rec[x]}
+        ELSE {})                                                       \* "bogus": a node id no record carries
+  ELSE {x \in {c.k} \cap CertKeys : st.rec[x]}                         \* a key outside the pool ("kx") has no record
 
 StateOK(c, r) == c.stt = NONE \/ (c.stt = "ok" /\ c.nsig = r)
 GateOK(st, c) == \E r \in Lookup(st, c) : c.nsig = r /\ StateOK(c, r)
 
-ChainOK(st, c) == c.chain = "b0" /\ st.cert[c.ck] = "fresh"
-TlsOK(st, c) == ChainOK(st, c) /\ c.priv /\ c.ck = c.k
+ChainOK(st, c) == c.chain = "b0" /\ c.ck \in CertKeys /\ st.cert[c.ck] = "fresh"
+\* the expected-key check compares the certificate's subject key with the key named in the request, when one is named
+TlsOK(st, c) == ChainOK(st, c) /\ c.priv /\ (c.k = NONE \/ c.ck = c.k)
 ServerCertOK(c) == c.pref \in {"cur", NONE}
 
 \* kind "mixedFA": fetch-request chunks FOLLOWED by authentication chunks in one ClientHello: the first
@@ -132,7 +135,7 @@ Clients == AuthClients \cup OtherClients \cup MixedClients
 
 MalClasses == {"empty", "short1", "short2", "nob64", "b64rand", "b64trunc", "oversize", "mixed", "dup", "badindex",
                "nontls", "dropAfterHello", "dropMidHello", "silentClose", "wrappedShort", "hugeEntry", "prefOnly",
-               "clientAlert", "resetMidHello", "resetAfterHello", "rawSslv2", "rawOversizeRecord", "rawHttp", "rawBadVersion"}
+               "clientAlert", "resetMidHello", "resetAfterHello", "flipUndecodable", "rawSslv2", "rawOversizeRecord", "rawHttp", "rawBadVersion"}
 MalPrefixes == {"fetch", "auth", "pref"}
 
 (***************************************************************************)
@@ -146,13 +149,17 @@ AllowedC07(st, o, res, credsUnchanged) ==
 (***************************************************************************)
 (* C02                                                                     *)
 (***************************************************************************)
-\* what the property requires of an authenticated connection
+\* what the property requires of an authenticated connection: possession of a certificate key certified by a
+\* currently valid root, and a nonce (and state) signed by the key of a stored record: the record OF THAT
+\* CERTIFICATE KEY, or - node-id path - a record under the node id the client names.  (The statement does not
+\* require the key named inside the request to equal the certificate key; the code's expected-key check is
+\* how it ties the two on the key path, and is part of the prediction, not of the property.)
 C02Auth(st, c) ==
   /\ c.kind \in {"auth", "mixedAF", "mixedFA"}
   /\ c.priv                                             \* proved possession
   /\ ChainOK(st, c)                                     \* certified by a currently valid root of this server
-  /\ c.ck = c.k                                         \* the verified key is the presented one
-  /\ \E r \in Lookup(st, c) : c.nsig = r                \* nonce signed by the key of a stored record (by key or node id)
+  /\ \/ (c.ck \in CertKeys /\ st.rec[c.ck] /\ c.nsig = c.ck)
+     \/ (c.nid # NONE /\ st.cfg.nidl /\ \E r \in Lookup(st, c) : c.nsig = r)
   /\ (c.stt # NONE => c.stt = "ok")                     \* client state, when present, verifies too
 AllowedC02(st, c, res) ==
   /\ (res = "auth" => C02Auth(st, c))
